@@ -11,6 +11,7 @@ C01 — Constant folding of IR operations agrees with P-Code semantics.
 arithmetic on `toNat`/`toInt`. All theorems hold for EVERY width `w` (not only 8/16/32/64).
 -/
 import CweModel.C01.Model
+import CweModel.C01.Sizes
 
 namespace CweModel.C01
 open CweModel CweModel.IR BitVec
